@@ -18,7 +18,7 @@ def run(patch):
             v = tempfile.mkdtemp(prefix="rmv.")
             try:
                 shutil.copy("/verif/known_findings.json", v)
-                rr = subprocess.run(["/verif/bin/sscheck", "-property", p, "-repo", d, "-verif", v], capture_output=True, text=True, env=env)
+                rr = subprocess.run([os.environ.get("SSCHECK", "/verif/bin/sscheck"), "-property", p, "-repo", d, "-verif", v], capture_output=True, text=True, env=env)
                 if rr.returncode != 0:
                     for l in rr.stdout.splitlines() + rr.stderr.splitlines():
                         if l.startswith(("violated", "UNDECIDED", "sscheck:")): out.append(l.replace(d + "/", "")[:420])
@@ -26,7 +26,7 @@ def run(patch):
         return patch, out
     finally: shutil.rmtree(d, ignore_errors=True)
 bad = 0
-with cf.ThreadPoolExecutor(4) as ex:
+with cf.ThreadPoolExecutor(int(os.environ.get("JOBS", "4"))) as ex:
     for patch, out in ex.map(run, patches):
         print("== %s: %s" % (patch, "clean" if not out else "%d ALARMS" % len(out)))
         for l in out: print("   ", l)
